@@ -181,7 +181,9 @@ Closure(c, S) ==
    LET N == S \cup UNION {{Step(RQ(c), gq, t).s : gq \in {g \in Tab[c].auxacts : Step(RQ(c), g, t).ok}} : t \in S}
    IN IF N = S THEN S ELSE Closure(c, N)
 AuxReach(c, s) == IF Tab[c].auxacts = {} THEN {s} ELSE Closure(c, {s})
-Justified(c, s) == Tab[c].aux = {} \/ s \in AuxReach(c, Base(c, s))
+Justified(c, s) == \/ Tab[c].aux = {}
+                   \/ (\A j \in Tab[c].aux : s[j] = Corpus[c].qinit[j])     \* s = Base(c, s)
+                   \/ s \in AuxReach(c, Base(c, s))
 
 Report(c, clause, x) == PrintT(<<"FAIL", Corpus[c].cid, clause, x>>)
 Zone(c, z) == PrintT(<<"Z", Corpus[c].cid, z>>)
@@ -228,7 +230,7 @@ PerState(c, s) ==
           gq == Goal3(RQ(c), s)
       IN IF gp = "?" \/ gq = "?" THEN Zone(c, "goal?")
          ELSE /\ (gq # "T" \/ gp = "T" \/ Report(c, "goal-compiled-holds-original-not", ""))
-              /\ (gp # "T" \/ (\E t \in AuxReach(c, s) : Goal3(RQ(c), t) = "T")
+              /\ (gp # "T" \/ gq = "T" \/ (\E t \in AuxReach(c, s) : Goal3(RQ(c), t) = "T")
                      \/ Report(c, "goal-original-holds-compiled-unreachable", ""))
 
 Verdict == IF ph = "root" THEN TRUE ELSE IF st = <<>> THEN PerCompilation(cid) ELSE PerState(cid, st)
